@@ -5,7 +5,7 @@ import runner, coreutil, gen_core
 from coreutil import Scenario, events, reads
 from refcodec import server_frame, close_payload
 
-TRUSTED = ['correspondence: harness/world.py run_chain (two connections on one WebSocket object)', 'harness/translate.py attribute-write facts']
+TRUSTED = ['correspondence: harness/world.py run_chain (two connections on one WebSocket object)', 'late finalisation: harness/props/c17.py real_reconnect (kept generators closed / collected at scripted moments) against Model/Reconnect.lean', 'harness/translate.py finalisation-time state-access facts (exitStateReads, onDisconnectOnParam)', 'harness/translate.py attribute-write facts']
 ASSUMPTIONS = ['oracle is real-vs-real: the second connection on a used object against the first connection on a new object, same server behaviour and same key draw']
 
 def endings(rng):
@@ -31,6 +31,15 @@ def endings(rng):
     E.append(('protocol-error', Scenario(reads([g + server_frame(3, b'')]) + [('wait', 0, ('eof',))], {}, prate=0)))
     E.append(('abandon-at-ready', Scenario(reads([g]), {2: [('abandon', 'raise')]}, prate=0)))
     E.append(('abandon-with', Scenario(reads([g + server_frame(2, b'zz')]), {4: [('abandon', 'with')]}, prate=0)))
+    # abandoned but still referenced: the application breaks out of the loop and keeps the generator until after the next connect()
+    # (`gen = ws.connect()` rebinding, a traceback or a non-refcounting interpreter keeping the frame alive) - it is finalised DURING the next connection
+    for mech in ('late', 'late2'):
+        E.append(('kept-at-ready-' + mech, Scenario(reads([g]), {2: [('abandon', mech)]}, prate=0)))
+        E.append(('kept-at-text-' + mech, Scenario(reads([g + server_frame(1, b'one') + server_frame(1, b'two')]), {4: [('abandon', mech)]}, prate=0)))
+        E.append(('kept-at-ping-' + mech, Scenario(reads([g + server_frame(1, b'he', fin=0) + server_frame(9, b'')]), {4: [('abandon', mech)]}, prate=0)))
+        E.append(('kept-at-closing-' + mech, Scenario(reads([g + server_frame(8, close_payload(1000, b''))]), {4: [('abandon', mech)]}, prate=0)))
+        E.append(('kept-at-connected-' + mech, Scenario(reads([g]), {1: [('abandon', mech)]}, prate=0)))
+        E.append(('kept-at-poll-' + mech, Scenario(reads([g]), {3: [('abandon', mech)]}, prate=0)))
     E.append(('ping-timeout', Scenario(reads([g]) + [('wait', 5, None)] * 4, {}, prate=2, ptimeout=7)))
     E.append(('timers-advanced', Scenario(reads([g]) + [('wait', 5, None)] * 3 + [('wait', 0, ('eof',))], {}, prate=3)))
     for _ in range(4):
@@ -41,7 +50,7 @@ def endings(rng):
 def explore(res, tier, seed, model_ok=True):
     rng = random.Random(seed)
     nnext = 6 if tier == 'quick' else 40
-    res.rule = ('pairs (previous connection, next connection) on ONE WebSocket object: 18 fixed abnormal endings (mid-header, mid-frame, mid-fragment, mid-UTF-8 sequence, deflate negotiated, while closing, close timeout, server closed, rejected, connect failed, '
+    res.rule = ('pairs (previous connection, next connection) on ONE WebSocket object: 30 fixed abnormal endings (abandoned generators finalised only after the next connect() or in the middle of the next connection, at Ready/Text/Ping/Closing/Connected/Poll; mid-header, mid-frame, mid-fragment, mid-UTF-8 sequence, deflate negotiated, while closing, close timeout, server closed, rejected, connect failed, '
                 'request failed, protocol error, abandoned by close/drop/raise/with, ping timeout, timers advanced) + random ones x %d next-connection histories (with timers and reactions); '
                 'oracle: the second connection\'s trace equals the trace of the same history on a fresh object; non-trivial = every pair; distinct by (ending, next line)') % nnext
     nexts = []
@@ -54,10 +63,25 @@ def explore(res, tier, seed, model_ok=True):
         s.key_seed = 40 + i          # the reply must answer THIS connection's key
         s.env = reads([s.good_reply()] + frames_after[0]) + frames_after[1]
         return s
+    def fxz(i):
+        from refcodec import DeflatePeer
+        peer = DeflatePeer()
+        s = Scenario([], {3: [('send_text', ('s', [104, 105, 104, 105]), True)]}, prate=0, compress=True)
+        s.key_seed = 40 + i
+        fr = b''.join(server_frame(1, peer.compress(m), rsv1=1) for m in (b'hello hello hello', b'hello again hello'))
+        s.env = reads([s.good_reply(b'Sec-WebSocket-Extensions: permessage-deflate\r\n') + fr]) + [('wait', 0, ('eof',))]
+        return s
     fixed_next = [
         fx(0, ([server_frame(1, b'hello') + server_frame(0x1, '€'.encode())], [('wait', 0, ('eof',))]), prate=0),
         fx(1, ([server_frame(0, b'cont')], [('wait', 0, ('eof',))]), prate=0),
         fx(2, ([], [('wait', 5, None), ('wait', 5, None), ('wait', 0, ('eof',))]), {3: [('send_text', ('s', [104]), True)]}, prate=3, ptimeout=20),
+        # a compressed (RSV1) frame although THIS connection did not negotiate the extension: must be a ProtocolError
+        fx(3, ([server_frame(2, bytes.fromhex('f248cdc9c90700'), rsv1=1) + server_frame(1, b'after')], [('wait', 0, ('eof',))]), prate=0),
+        # a connection that lives longer than any close timeout a previous connection may have armed, and never closes
+        fx(4, ([], [('wait', 5, None)] * 9 + [('wait', 0, ('data', server_frame(1, b'still here'))), ('wait', 5, None), ('wait', 0, ('eof',))]), prate=0, ctimeout=30),
+        fx(5, ([], [('wait', 5, None)] * 4 + [('wait', 0, ('data', server_frame(10, b'')))] + [('wait', 5, None)] * 4 + [('wait', 0, ('eof',))]), prate=4, ptimeout=12, ctimeout=6),
+        # negotiates compression itself (after a previous connection that did or did not) and receives/sends compressed messages
+        fxz(6),
     ]
     nexts = fixed_next + nexts
     chains, meta = [], []
@@ -98,10 +122,125 @@ def explore(res, tier, seed, model_ok=True):
         key = coreutil.scenario_from_json(ch[-1]).key().hex()
         if 'E:connected' in got and key not in got:
             res.failures.append(dict(cls='stale-key', what='request of the new connection does not carry a fresh key', input=dict(previous=ch[:-1], next=ch[-1])))
+    explore_reconnect(res, tier, rng, model_ok)
     res.samples += [dict(previous='mid-fragment', next=scenario_line(nexts[0])[-300:])]
 
 
+# ---------------------------------------------------------------------------------------------
+# late finalisation (Model/Reconnect.lean): one WebSocket object, several connections whose generators the
+# application keeps, finalised at arbitrary later moments; observed: the flags of the CURRENT state
+
+def real_reconnect(ops):
+    """ops: 'c' connect and iterate up to the first Text event (generator kept, suspended inside feed), 'x<i>' finalise the
+       generator of connection i, 'oc' ws.close(), 'od' finalise the current connection's own generator.
+       Returns the model driver's output format: '<op>:<closed><closing><session closed>' per op."""
+    import gc
+    import world as W
+    import lomond.session as _session, lomond.events as _events, lomond.websocket as _websocket, lomond.frame as _frame
+    from lomond.websocket import WebSocket
+    saved = (_session.time, _events.time, _frame.make_masking_key, _websocket.os.urandom)
+    cur = {}
+
+    class TimeShim:
+        @staticmethod
+        def time():
+            return cur['world'].clock.t
+    out, gens = [], []
+    try:
+        _session.time = TimeShim
+        _events.time = TimeShim
+        _frame.make_masking_key = lambda: b'\x01\x02\x03\x04'
+        _websocket.os.urandom = lambda n: cur['sc'].key_bytes()[:n]
+        first = Scenario([])
+        cur['sc'] = first
+        ws = WebSocket(first.url, proxies={})
+        for op in ops:
+            if op == 'c':
+                sc = Scenario([], {}, prate=0)
+                sc.key_seed = len(gens) + 1
+                sc.env = reads([sc.good_reply() + server_frame(1, b'one') + server_frame(1, b'two')]) + [('wait', 5, None)] * 3
+                w = W.World(sc)
+                w.canon_write = W._canon_write_factory(w)
+                cur['sc'], cur['world'] = sc, w
+                g = ws.connect(session_class=W.make_session_class(w), ping_rate=0.0)
+                for ev in g:
+                    if ev.name == 'text':
+                        break
+                gens.append(g)
+                g = None
+            elif op == 'oc':
+                try:
+                    ws.close()
+                except Exception:  # noqa
+                    pass
+            elif op == 'od':
+                if len(gens) % 2:
+                    gens[-1].close()
+                else:
+                    gens[-1] = None
+                    gc.collect()
+            else:
+                i = int(op[1:])
+                if i % 2:
+                    gens[i].close()
+                else:
+                    gens[i] = None
+                    gc.collect()
+            st = ws.state
+            out.append('%s:%d%d%d' % (op, 1 if st.closed else 0, 1 if st.closing else 0, 1 if (st.session is None or st.session._sock is None) else 0))
+    finally:
+        _session.time, _events.time, _frame.make_masking_key, _websocket.os.urandom = saved
+        del gens[:]
+        gc.collect()
+    return ' '.join(out)
+
+
+def gen_reconnect_ops(rng):
+    ops, n, exited = ['c'], 1, set()
+    for _ in range(rng.randint(2, 9)):
+        r = rng.random()
+        old = [i for i in range(n - 1) if i not in exited]
+        if r < 0.3:
+            ops.append('c'); n += 1
+        elif r < 0.65 and old:
+            i = rng.choice(old); exited.add(i); ops.append('x%d' % i)
+        elif r < 0.85:
+            ops.append('oc')
+        elif (n - 1) not in exited:
+            exited.add(n - 1); ops.append('od')
+    return ops
+
+
+def explore_reconnect(res, tier, rng, model_ok):
+    seqs = [['c', 'c', 'x0'], ['c', 'c', 'c', 'x0', 'oc', 'x1'], ['c', 'oc', 'c', 'x0'], ['c', 'c', 'x0', 'od'], ['c', 'od', 'c', 'x0', 'oc']]
+    seqs += [gen_reconnect_ops(rng) for _ in range(60 if tier == 'quick' else 1500)]
+    reals = runner.parallel_map('props.c17', 'real_reconnect', seqs, chunk=20)
+    models = runner.model_run(['reconnect ' + ' '.join(s) for s in seqs]) if model_ok else [None] * len(seqs)
+    for ops, real, model in zip(seqs, reals, models):
+        if isinstance(real, dict):
+            res.crashes.append(real); continue
+        res.case(('reconnect', tuple(ops)), nontrivial=any(o.startswith('x') for o in ops))
+        res.count('reconnect_history'); res.count('reconnect_late_exits', sum(1 for o in ops if o.startswith('x')))
+        res.traces_validated += 1
+        if model is not None and real != model:
+            res.diffs.append(dict(input='reconnect ' + ' '.join(ops), real=real, model=model))
+        # model-free oracle: finalising an OLDER connection's generator never changes the current connection's flags
+        toks_ = real.split(' ')
+        for k, t in enumerate(toks_):
+            if t.startswith('x') and k > 0 and t.split(':')[1] != toks_[k - 1].split(':')[1]:
+                res.failures.append(dict(cls='stale-state', what='finalising the kept generator of an earlier connection changed the state of the current connection (%s -> %s)'
+                                         % (toks_[k - 1], t), input=dict(reconnect=ops), observed=real))
+                break
+
+
 def replay(rp):
+    inp = rp.get('input')
+    if isinstance(inp, dict) and 'reconnect' in inp:
+        print(real_reconnect(inp['reconnect']))
+        return 0
+    if isinstance(inp, str) and inp.startswith('reconnect '):
+        print(real_reconnect(inp.split(' ')[1:]))
+        return 0
     inp = rp.get('input')
     if isinstance(inp, dict) and 'previous' in inp:
         for t in coreutil.real_chain(inp['previous'] + [inp['next']]):
